@@ -49,7 +49,7 @@ def concrete(letter):
 class Spec:
     def __init__(self, name, exe="exe0", N=2, retries=0, warmup=0, ign=False, exe_build=None, suite_build=None,
                  suite=None, suite_loc="/x", adapter_ok=True, script=(), mode="k", exclusive=None, exe_path="/x",
-                 exe_file=None, exe_env=None, suite_env=None, bench_env=None, adapter=None):
+                 exe_file=None, exe_env=None, suite_env=None, bench_env=None, adapter=None, exe_key=None):
         self.name, self.exe, self.N, self.retries, self.warmup, self.ign = name, exe, N, retries, warmup, ign
         self.exe_build, self.suite_build = exe_build, suite_build
         self.suite = suite or "S_" + name
@@ -61,6 +61,9 @@ class Spec:
         self.exe_path, self.exe_file = exe_path, exe_file or exe   # executors are told apart by path + file name
         self.exe_env, self.suite_env, self.bench_env = exe_env, suite_env, bench_env
         self.adapter = adapter      # an explicit gauge_adapter setting (name, or {Name: file})
+        # what identifies the program that is started (the first word of the expanded command line): by default one per
+        # executor; differs when the executable contains placeholders, coincides when two executors differ in arguments only
+        self.exe_key = exe_key
 
     def run_env(self):
         """the run's env: the most specific level that defines one replaces the others"""
@@ -78,7 +81,7 @@ class Spec:
                     exe_build=self.exe_build, suite_build=self.suite_build, suite=self.suite, suite_loc=self.suite_loc,
                     adapter_ok=self.adapter_ok, script=self.script, mode=self.mode, exclusive=self.exclusive,
                     exe_path=self.exe_path, exe_file=self.exe_file, exe_env=self.exe_env, suite_env=self.suite_env,
-                    bench_env=self.bench_env)
+                    bench_env=self.bench_env, exe_key=self.exe_key)
 
 
 RUNS_LEVEL = None      # optional top-level `runs:` settings (e.g. parallel_interference_factor) added to every configuration
@@ -233,7 +236,7 @@ def world_term(specs, order, faulty=False, builds=True, failing_builds=(), exes=
         descs.append("{| d_cfg := {| r_invocations := %s; r_retries := %s; r_warmup := %s; r_ignore_timeouts := %s |}; "
                      "d_exe := %s; d_blds := %s; d_adapter_ok := %s |}" % (
                          coq_Z(s.N), coq_Z(s.retries), coq_Z(s.warmup), coq_bool(s.ign),
-                         coq_nat(exe_ids.setdefault(s.exe, len(exe_ids))), coq_list([coq_nat(b) for b in bl], "nat"),
+                         coq_nat(exe_ids.setdefault(s.exe_key or s.exe, len(exe_ids))), coq_list([coq_nat(b) for b in bl], "nat"),
                          coq_bool(s.adapter_ok)))
         tables.append("(%s, %s)" % (coq_bool(s.mode == "k"), coq_list([concrete(l)[2] for l in s.script])))
     failing = [ids[b] for b in ids if b in failing_builds or b[0] in failing_builds]
